@@ -66,3 +66,18 @@ func TestC18_GetDigitNonDigit(t *testing.T) {
 		t.Errorf(`1234|get_digit:2 = %q (err %v), want 3`, out, err)
 	}
 }
+
+// C06 "however many verbatim blocks there are": an empty verbatim block and two blocks written next to each other.
+func TestC06_VerbatimEmptyAndAdjacent(t *testing.T) {
+	set := newSet(nil)
+	for src, want := range map[string]string{
+		"a{% verbatim %}{% endverbatim %}b":                                  "ab",
+		"{% verbatim %}{{ x }}{% endverbatim %}{% verbatim %}{% y %}{% endverbatim %}": "{{ x }}{% y %}",
+		"{% verbatim %}1{% endverbatim %}{# c #}{% verbatim %}2{% endverbatim %}":      "12",
+	} {
+		out, err := render(t, set, src, nil)
+		if err != nil || out != want {
+			t.Errorf("%q: got %q, %v; want %q", src, out, err, want)
+		}
+	}
+}
